@@ -170,7 +170,7 @@ def build_lib(variant="plain", quiet=True):
         lk.close()
 
 
-def _prune(libroot, variant, keep, nkeep=8):
+def _prune(libroot, variant, keep, nkeep=40):
     """keep the nkeep most recently used libraries of a variant (several trees may be under test at once:
     /repo itself and scratch worktrees selected with VERIF_REPO)"""
     import shutil
@@ -204,7 +204,7 @@ def build_harness(name, sources, variant="plain", extra=(), link_lib=True, libs=
             os.replace(exe + ".tmp", exe)
             olds = [o for o in glob.glob(os.path.join(bdir, name + ".*")) if o != exe and ".tmp" not in o]
             olds.sort(key=lambda o: os.stat(o).st_mtime, reverse=True)
-            for old in olds[7:]:
+            for old in olds[39:]:
                 try:
                     os.remove(old)
                 except OSError:
